@@ -164,6 +164,16 @@ class Fn:
             return "(if %s then %s else %s)" % (self.cond(e.test), self.expr(e.body), self.expr(e.orelse))
         if isinstance(e, ast.Tuple):
             return "(" + ", ".join(self.expr(x) for x in e.elts) + ")"
+        if isinstance(e, ast.List):
+            return "[" + ", ".join(self.expr(x) for x in e.elts) + "]"
+        if isinstance(e, ast.JoinedStr):
+            # an f-string whose interpolated values are strings (as the binding types them): concatenation
+            parts = []
+            for v in e.values:
+                if isinstance(v, ast.Constant) and isinstance(v.value, str): parts.append(lean_str(v.value))
+                elif isinstance(v, ast.FormattedValue) and v.conversion == -1 and v.format_spec is None: parts.append(self.expr(v.value))
+                else: raise Unsupported("f-string with a conversion or format")
+            return "(" + " ++ ".join(parts) + ")" if parts else lean_str("")
         if isinstance(e, ast.Call):
             return self.call(e)
         if isinstance(e, ast.Subscript):
@@ -276,6 +286,9 @@ class Fn:
         raise Unsupported("truthiness of %s" % (d or type(e).__name__))
 
     def compare(self, l, op, r):
+        if isinstance(op, (ast.In, ast.NotIn)) and dotted(r) in self.spec.get("contains", {}):
+            c = self.spec["contains"][dotted(r)].replace("{0}", self.expr(l))
+            return c if isinstance(op, ast.In) else "(¬ %s)" % c
         if isinstance(op, (ast.In, ast.NotIn)):
             if isinstance(r, (ast.Tuple, ast.List, ast.Set)):
                 le = self.expr(l)
@@ -284,7 +297,8 @@ class Fn:
                 c = "(%s ∈ %s)" % (self.expr(l), self.expr(r))
             return c if isinstance(op, ast.In) else "(¬ %s)" % c
         if isinstance(op, (ast.Is, ast.IsNot)) and isinstance(r, ast.Constant) and r.value is None:
-            c = "(%s = none)" % self.expr(l)
+            raw = self.ident(l.id) if isinstance(l, ast.Name) and l.id in self.locals else self.expr(l)
+            c = "(%s = none)" % raw
             return c if isinstance(op, ast.Is) else "(¬ %s)" % c
         ops = {ast.Eq: "=", ast.NotEq: "≠", ast.Lt: "<", ast.LtE: "≤", ast.Gt: ">", ast.GtE: "≥"}
         if type(op) not in ops: raise Unsupported("comparison %s" % type(op).__name__)
@@ -408,8 +422,48 @@ class Fn:
                 return "(%s :: %s)" % (item, self.block(rest, rest_value if rest_value is not None else "[]", in_loop))
             if isinstance(v, ast.Call) and dotted(v.func) == self.spec.get("append_is_return") and not rest:
                 return self.ret(self.expr(v.args[0]))
+            if isinstance(v, ast.Call) and self.ret_mode == "list":
+                d = dotted(v.func)
+                tail = lambda: self.block(rest, rest_value if rest_value is not None else "[]", in_loop)
+                if d is not None and d == self.spec.get("write_call") and len(v.args) == 1 and not v.keywords:
+                    return "(%s ++ %s)" % (self.write_items(v.args[0]), tail())
+                wc = self.spec.get("writer_calls", {})
+                kw = {k.arg: k.value for k in v.keywords}
+                if d in wc:
+                    return "(%s ++ %s)" % (self.fill(wc[d], None, v.args, kw), tail())
+                if isinstance(v.func, ast.Attribute) and "." + v.func.attr in wc:
+                    return "(%s ++ %s)" % (self.fill(wc["." + v.func.attr], v.func.value, v.args, kw), tail())
             raise Unsupported("expression statement %s" % ast.unparse(v)[:40])
         raise Unsupported("statement %s" % type(s).__name__)
+
+    def is_param(self, e):
+        return (isinstance(e, ast.Name) and e.id in self.spec.get("param_vars", ())) or \
+               (isinstance(e, ast.Call) and dotted(e.func) == self.spec.get("param_ctor"))
+
+    def write_items(self, e):
+        """what `file.write(e)` appends, as a list of items: parameters (objects the MSD layer renders) and plain text"""
+        if isinstance(e, ast.Call) and dotted(e.func) == "str" and len(e.args) == 1 and self.is_param(e.args[0]):
+            return "[Item.param %s]" % self.expr(e.args[0])
+        if isinstance(e, ast.Constant) and isinstance(e.value, str):
+            return "[Item.text %s]" % lean_str(e.value)
+        if isinstance(e, ast.JoinedStr):
+            items, text = [], []
+
+            def flush():
+                if text:
+                    items.append("Item.text (%s)" % " ++ ".join(text)); del text[:]
+            for v in e.values:
+                if isinstance(v, ast.Constant) and isinstance(v.value, str): text.append(lean_str(v.value))
+                elif isinstance(v, ast.FormattedValue) and v.conversion == -1 and v.format_spec is None:
+                    if self.is_param(v.value):
+                        flush(); items.append("Item.param %s" % self.expr(v.value))
+                    else:
+                        text.append(self.expr(v.value))
+                else:
+                    raise Unsupported("f-string with a conversion or format")
+            flush()
+            return "[" + ", ".join(items) + "]"
+        raise Unsupported("written value %s" % type(e).__name__)
 
     def _branch(self, stmts, assigned, tup, saved, in_loop):
         self.locals = set(saved)
@@ -470,6 +524,7 @@ def signature_defaults(tree, qual):
 
 def main():
     sys.path.insert(0, os.path.dirname(os.path.abspath(__file__)))
+    sys.modules.setdefault("gen_code", sys.modules[__name__])      # the bindings raise gen_code.Unsupported: one class, however this file was started
     import gen_code_bindings as B
     os.makedirs(OUT, exist_ok=True)
     status = {}
@@ -498,6 +553,9 @@ def main():
             lean = None
         except SyntaxError as ex:
             entry["status"] = "untranslatable"; entry["reason"] = "syntax error in %s" % spec["file"]
+            lean = None
+        except Exception as ex:
+            entry["status"] = "untranslatable"; entry["reason"] = "translator error: %s: %s" % (type(ex).__name__, str(ex)[:200])
             lean = None
         status.setdefault(spec["module"], {"functions": {}, "imports": spec["imports"]})
         status[spec["module"]]["functions"][name] = entry
